@@ -58,6 +58,28 @@ def confirm_on_binary(p, rep):
         shutil.rmtree(root, ignore_errors=True)
 
 
+def pinned_hooks(chk):
+    """re-run pinned witnesses of kind 'hooks': the binary's hook-call sequence on a fixed input"""
+    import os
+    for k in chk.known:
+        w = k.get('witness', {})
+        if w.get('kind') != 'hooks':
+            continue
+        path = os.path.join(os.path.dirname(os.path.dirname(os.path.abspath(__file__))), '..', w['program'])
+        src = open(os.path.normpath(path)).read()
+        progs = runner.compile_programs([(w['program'], src, w['args'])])
+        root = runner.scratch_dir()
+        try:
+            runner.build_programs(progs, root)
+            if progs[0].bin:
+                steps, status = mc.replay_hist(progs[0], list(bytes.fromhex(w['input_hex'])))
+                hooks = [h['n'] for c, evs in steps for e in evs for h in e.get('hooks', [])]
+                if hooks == w['observed_hooks']:
+                    chk.known_hits.append((k['id'], 'pinned witness %s on input %r calls %s (prescribed: %s)' % (w['program'], bytes.fromhex(w['input_hex']), hooks, w['expected_hooks'])))
+        finally:
+            shutil.rmtree(root, ignore_errors=True)
+
+
 def run_conform(chk, pairs, maxlen, timeout, label):
     reports, st, cases = conform.explore(pairs, maxlen=maxlen, timeout=timeout)
     for e in st['errors']:
